@@ -483,6 +483,17 @@ func ruleR03R04(c *Ctx) {
 					case s.flags&flagEX != 0 && !accepted(s):
 						pfi := pf[tk.Name]
 						key := fmt.Sprintf("%s.Insert key-exhausted %s %s", tk.Name, where, desc)
+						props := props
+						if pfi.class == "sort-key-not-injective" {
+							// C08 is stated for collators that tell the stored strings apart
+							var p2 []string
+							for _, p := range props {
+								if p != "C08" {
+									p2 = append(p2, p)
+								}
+							}
+							props = p2
+						}
 						if pfi.ok {
 							c.r.ok("R03", key, pos, "path crosses a key-exhausted edge, infeasible because the keys of this kind are prefix-free ("+pfi.class+")", props...)
 						} else {
